@@ -13,8 +13,8 @@
    34 is the double quote, 39 the single quote, 47 the slash, 61 the equals sign. *)
 From Coq Require Import List NArith ZArith Bool Permutation.
 From JV Require Import Msg CliModel CliLemmas CliInv CliProofs CliHist CliSend CliFed CliNoStop CliSendLog SameResultsCli SameResultsBridge.
-From JV Require Json Wire.
-From JV Require Import Bytes QStr Query QueryProofs GetterMore HttpChan HttpChanProofs SameResults.
+From JV Require Json Wire Bridge BridgeProofs.
+From JV Require Import Bytes QStr Query QueryProofs GetterMore HttpChan HttpChanProofs SameResults SameResultsDirect.
 Import ListNotations.
 Local Open Scope N_scope.
 
@@ -338,6 +338,65 @@ Theorem c19_same_results_any_peer : forall body htr hs c1 tr1 s1 c2 tr2 s2,
     /\ (forall rs1 rs2, In (ORet n (RetBatch rs1)) (hist s1) -> In (ORet n (RetBatch rs2)) (hist s2) -> rs1 = rs2).
 Proof. exact same_results_cli. Qed.
 Print Assumptions c19_same_results_any_peer.
+
+(* A REAL DIRECT CONNECTION (http/SameResultsDirect.v).  [direct_answer inner next req]: the record a jrpc2.Server
+   with the same handlers sends for the request record req on a plain channel: members answered by [inner] as
+   behind the Bridge, under the ids AS SENT, in REQUEST order (invalid members at their position), notifications
+   silent, an array iff the request was a batch or the replies are not exactly one, and NO record at all (None)
+   when there is nothing to report; [direct_members] = its members ([] when no record).
+   For every decodable non-empty request record: the Bridge's answer has the same members up to order (same id
+   text, same result/error each; the Bridge puts static errors first); the SAME LIST when no member is statically
+   invalid (every record a client sends); 204 iff the direct server sends no record, 200 iff it sends one; the
+   forms differ exactly as stated (a batch of one call is a single object over HTTP). *)
+Theorem c19_direct_vs_bridge : forall inner next b ms,
+  BridgeProofs.inner_ok inner -> ms <> [] ->
+  exists st body,
+    bridge_answer inner next (InMsgs b ms) = Some (st, body) /\
+    Permutation (body_msgs body) (direct_members inner next (InMsgs b ms)) /\
+    Permutation (map id_body (body_msgs body)) (map id_body (direct_members inner next (InMsgs b ms))) /\
+    ((forall m, In m ms -> j_err m = None) -> body_msgs body = direct_members inner next (InMsgs b ms)) /\
+    (st = 204%Z <-> direct_answer inner next (InMsgs b ms) = None) /\
+    (st = 200%Z <-> exists r, direct_answer inner next (InMsgs b ms) = Some r /\ body_msgs r <> []) /\
+    (forall r, direct_answer inner next (InMsgs b ms) = Some r ->
+       r = InMsgs (b || negb (Nat.eqb (length (body_msgs r)) 1)) (body_msgs r)) /\
+    body = InMsgs (Nat.leb 2 (length (body_msgs body))) (body_msgs body).
+Proof. exact direct_vs_bridge. Qed.
+Print Assumptions c19_direct_vs_bridge.
+
+(* every record the client puts on the transport has at least one member (Batch with no specs fails before Send) *)
+Theorem c19_sent_records_nonempty : forall c tr s, traces_to c tr s ->
+  forall n, In n (sendlog (init_of c) tr) -> exists o, op_at s n = Some o /\ o_specs o <> [].
+Proof. exact sendlog_nonempty. Qed.
+Print Assumptions c19_sent_records_nonempty.
+
+(* SAME RESULTS AS OVER A DIRECT CONNECTION, the direct run being fed what a direct SERVER sends.
+   [answered_by_bridge_with inner next bflag c1 tr1 s1 htr body] = sends_answered_by_bridge with its witnesses
+   named; [direct_server_feeds inner next bflag c1 tr1 s1]: for the records the client sent over the channel, in
+   the order it sent them, the record [direct_answer] gives for each (same handlers, ids as sent) - skipping those
+   for which a server sends nothing.  tr2 is ANY run of the client model fed exactly these. *)
+Theorem c19_same_results_direct_server : forall inner next bflag body htr hs c1 tr1 s1 c2 tr2 s2,
+  HttpChan.run HttpChan.init htr = Some hs -> ~ In HClose htr -> forallb is_done (gs hs) = true ->
+  traces_to c1 tr1 s1 -> traces_to c2 tr2 s2 ->
+  feeds tr1 = http_feeds body htr ->
+  answered_by_bridge_with inner next bflag c1 tr1 s1 htr body ->
+  feeds tr2 = direct_server_feeds inner next bflag c1 tr1 s1 ->
+  Forall not_close tr1 -> Forall not_close tr2 ->
+  forall n o1 o2, op_at s1 n = Some o1 -> op_at s2 n = Some o2 ->
+    o_ctx o1 = None -> o_ctx o2 = None ->
+    op_ids s1 n = op_ids s2 n ->
+    (forall r1 r2, In (ORet n (RetCall r1)) (hist s1) -> In (ORet n (RetCall r2)) (hist s2) -> r1 = r2)
+    /\ (forall rs1 rs2, In (ORet n (RetBatch rs1)) (hist s1) -> In (ORet n (RetBatch rs2)) (hist s2) -> rs1 = rs2).
+Proof. exact same_results_direct_server. Qed.
+Print Assumptions c19_same_results_direct_server.
+
+(* every record of the direct server's stream is one of the reply records Recv yielded over the channel *)
+Theorem c19_direct_records_among_http : forall inner next bflag c tr s htr hs body,
+  traces_to c tr s ->
+  HttpChan.run HttpChan.init htr = Some hs -> ~ In HClose htr -> forallb is_done (gs hs) = true ->
+  answered_by_bridge_with inner next bflag c tr s htr body ->
+  forall ms, In ms (recs_of (direct_server_feeds inner next bflag c tr s)) -> In ms (recs_of (http_feeds body htr)).
+Proof. exact direct_records_among_http. Qed.
+Print Assumptions c19_direct_records_among_http.
 
 (* The premise `order_irrelevant` of the abstract theorem below, discharged for the client model: two runs, the
    records fed in the second all occur among those fed in the first (e.g. any permutation, regrouping aside), the
